@@ -13,7 +13,7 @@ From SV Require Import Base.Base IR.State IR.NS IR.Ops Hier.Paths Hier.Trace
   Proofs.NsInv Proofs.QueryEnumBase Proofs.QueryEnumInst Proofs.QueryEnumPorts Proofs.QueryEnumNetl
   Proofs.QueryEnumPins Proofs.QueryEnumDefs Proofs.QueryEnumLibs Proofs.QueryEnumCables Proofs.QueryEnumFull Proofs.QueryEnumEx
   Proofs.QueryEnumTerm Proofs.QueryEnumTerm2 Proofs.QueryEnumWires Proofs.QueryEnumWiresSpec Proofs.QueryEnumWiresAll
-  Proofs.QueryEnumCablesAll Proofs.QueryEnumAllFull Proofs.QueryEnumWiresAllRoots Proofs.QueryEnumCablesAllRoots.
+  Proofs.QueryEnumCablesAll Proofs.QueryEnumAllFull Proofs.QueryEnumWiresAllRoots Proofs.QueryEnumCablesAllRoots Proofs.QueryEnumLookIdent.
 Import ListNotations.
 Local Open Scope string_scope.
 Local Open Scope list_scope.
@@ -125,7 +125,11 @@ Definition C13_full : Prop := filter_full_statement.
    element; what the first stage yielded is kept apart).
    lookups_ok: every lookup agrees with the linear scan that returns every child carrying the value
    (for a registered lookup: the invariant of property C10; for the scan itself - user keys - trivially,
-   since the repair of C13-K5); patterns are non-empty strings. *)
+   since the repair of C13-K5); patterns are non-empty strings.
+   "matches" (sel_match) is per element: an exact pattern is compared the way the namespace of the
+   element compares - fold e: the key is EDIF.identifier and the element is under the EDIF policy, then
+   case-insensitively - everywhere: fast lookup, scan, name-map stages, get_netlists (finding C13-K4
+   repaired: only the fast lookup used to fold). *)
 Theorem C13_full_holds : C13_full.
 Proof. exact filter_full. Qed.
 Print Assumptions C13_full_holds.
@@ -134,37 +138,46 @@ Print Assumptions C13_full_holds.
    other order and with the pattern repeated), get_definitions / get_ports / get_cables likewise,
    get_instances([definition, instance of it], 'a*'): one element named a, yielded once *)
 Example C13_former_duplicate_witnesses :
-  run_query true false w_key true BFound [] [0] w_pats = [0] /\
-  (run_query true false w_key true BFound [] [0] [s2l "a*"; s2l "a"] = [0] /\
-   run_query true false w_key true BFound [] [0] [s2l "a"; s2l "a"] = [0]) /\
-  run_query true false w_key false BNames [] [0] w_pats = [0] /\
-  run_query true false w_key true BFound [(Filter.scan_lookup w_key [0], [0])] [0] [s2l "a*"] = [0].
+  run_query true false w_key (fun _ => false) true BFound [] [0] w_pats = [0] /\
+  (run_query true false w_key (fun _ => false) true BFound [] [0] [s2l "a*"; s2l "a"] = [0] /\
+   run_query true false w_key (fun _ => false) true BFound [] [0] [s2l "a"; s2l "a"] = [0]) /\
+  run_query true false w_key (fun _ => false) false BNames [] [0] w_pats = [0] /\
+  run_query true false w_key (fun _ => false) true BFound [(Filter.scan_lookup w_key (fun _ => false) [0], [0])] [0] [s2l "a*"] = [0].
 Proof.
   split; [exact witness_found_once|]. split; [exact witness_found_once_rev|].
   split; [exact witness_names_once|exact witness_found_not_reiterated].
 Qed.
 
+(* the former witness of C13-K4: elements 1 and 2 carry the identifier Foo, 1 is under the EDIF policy:
+   the exact pattern FOO selects 1 and only 1, in the name-map stages, through the scan, in get_netlists *)
+Example C13_exact_identifier_case_example :
+  run_query true false f_key f_fold false BNames [] [1; 2] [s2l "FOO"] = [1] /\
+  run_query true false f_key f_fold false BNames [(Filter.scan_lookup f_key f_fold [1; 2], [1; 2])] [] [s2l "FOO"] = [1] /\
+  run_query true false f_key f_fold true BFound [] [1; 2] [s2l "FOO"] = [1] /\
+  run_netlists true false f_key f_fold [1; 2] [s2l "FOO"] = [1].
+Proof. exact x_fold. Qed.
+
 Example C13_filter_hypotheses_satisfiable :
-  lookups_ok x_key x_parents /\ ~ In [] [s2l "a[0]"; s2l "a*"].
+  lookups_ok x_key (fun _ => false) x_parents /\ ~ In [] [s2l "a[0]"; s2l "a*"].
 Proof. exact x_lookups_ok. Qed.
 
 (* stage A alone never yields an element twice, whatever the lookups answer *)
 Theorem C13_stageA_NoDup : forall key mt ab nk parents pats found,
   NoDup (stageA key mt ab nk parents pats found).
-Proof. exact stageA_NoDup. Qed.
+Proof. exact (fun key => stageA_NoDup key (fun _ => false)). Qed.
 Print Assumptions C13_stageA_NoDup.
 
 (* get_netlists *)
-Theorem C13_netlists_spec : forall ic ir key objs pats, ~ In [] pats ->
-  NoDup (run_netlists ic ir key objs pats) /\
-  forall e, In e (run_netlists ic ir key objs pats) <-> In e objs /\ sel_match ic ir key pats e = true.
+Theorem C13_netlists_spec : forall ic ir key fold objs pats, ~ In [] pats ->
+  NoDup (run_netlists ic ir key fold objs pats) /\
+  forall e, In e (run_netlists ic ir key fold objs pats) <-> In e objs /\ sel_match ic ir key fold pats e = true.
 Proof. exact run_netlists_spec. Qed.
 Print Assumptions C13_netlists_spec.
 
 Example C13_netlists_example :
   ~ In [] [s2l "n1"; s2l "N*"] /\
   run_netlists false false (fun e => match e with 0 => Some (s2l "n1") | 1 => Some (s2l "n2") | _ => None end)
-               [0; 1; 0; 2] [s2l "n1"; s2l "N*"] = [0; 1].
+               (fun _ => false) [0; 1; 0; 2] [s2l "n1"; s2l "N*"] = [0; 1].
 Proof. exact x_netlists. Qed.
 
 (* the name stage of the hierarchical queries *)
@@ -232,6 +245,17 @@ Theorem C13_lookup_hypothesis_default_policy : forall s reg k r,
 Proof. exact lookok_default_policy. Qed.
 Print Assumptions C13_lookup_hypothesis_default_policy.
 
+(* under the EDIF policy the hypothesis holds for EDIF.identifier as well (finding C13-K4 repaired: the
+   scan compares an identifier the way the namespace of the child does): the table answers with the
+   child whose lower-cased identifier is the lower-cased value (C10's invariant NsInv) and the scan
+   returns exactly that child - provided the children of a parent with an EDIF table are themselves
+   under the EDIF policy (PolCoh: child[".NS"] follows the parent, NamespaceManager.add). PolCoh is a
+   hypothesis here: it is not among the invariants proved for C10. *)
+Theorem C13_lookup_hypothesis_for_identifiers : forall s reg r,
+  NsInv s -> ns_rel r = true -> (forall p, NoDup (kids s r p)) -> PolCoh s r -> LookOK s reg str_IDENT r.
+Proof. exact lookok_edif_ident. Qed.
+Print Assumptions C13_lookup_hypothesis_for_identifiers.
+
 (* the former witness of C13-K3: child 10 carries the identifier x; exact pattern, registered and
    deregistered lookups, and the wildcard form agree *)
 Example C13_default_policy_hypotheses_satisfiable :
@@ -254,8 +278,8 @@ Print Assumptions C13_lookup_hypothesis_for_scanned_keys.
 Definition k5_key (e : id) : option str := match e with 1 | 2 => Some (s2l "v") | _ => None end.
 Example C13_scanned_keys_example :
   true && registered_key (s2l "USER.k") = false /\
-  run_query true false k5_key false BNames [(Filter.scan_lookup k5_key [1; 2; 3], [1; 2; 3])] [] [s2l "v"] = [1; 2] /\
-  run_query true false k5_key false BNames [(Filter.scan_lookup k5_key [1; 2; 3], [1; 2; 3])] [] [s2l "v*"] = [1; 2].
+  run_query true false k5_key (fun _ => false) false BNames [(Filter.scan_lookup k5_key (fun _ => false) [1; 2; 3], [1; 2; 3])] [] [s2l "v"] = [1; 2] /\
+  run_query true false k5_key (fun _ => false) false BNames [(Filter.scan_lookup k5_key (fun _ => false) [1; 2; 3], [1; 2; 3])] [] [s2l "v*"] = [1; 2].
 Proof. vm_compute. repeat split; reflexivity. Qed.
 
 Example C13_enumeration_hypotheses_satisfiable :
@@ -280,7 +304,7 @@ Theorem C13_get_instances : forall s, QWF s -> forall o fuel root rec inside pat
   forall e, In e res <->
     ((reachA_instances s rec inside root e /\ Filter.has_key (key_of s (q_key o)) e = true) \/
      reachB_instances s rec inside root e) /\
-    (sel_match (q_case o) (q_re o) (key_of s (q_key o)) pats e = true /\ q_cb o e = true).
+    (sel_match (q_case o) (q_re o) (key_of s (q_key o)) (fold_of s (q_key o)) pats e = true /\ q_cb o e = true).
 Proof. exact query_instances_spec. Qed.
 Print Assumptions C13_get_instances.
 
@@ -310,7 +334,7 @@ Theorem C13_get_instances_filters_unfiltered : forall s o fuel roots rec inside 
   LookOK s (q_reg o) (q_key o) RChildren -> ~ In [] pats ->
   query_instances s o fuel roots rec inside pats = WOk res ->
   query_instances s (unfiltered o) fuel roots rec inside star_pat = WOk ures ->
-  forall e, In e res <-> In e ures /\ sel_match (q_case o) (q_re o) (key_of s (q_key o)) pats e = true.
+  forall e, In e res <-> In e ures /\ sel_match (q_case o) (q_re o) (key_of s (q_key o)) (fold_of s (q_key o)) pats e = true.
 Proof. exact instances_filters_unfiltered. Qed.
 Print Assumptions C13_get_instances_filters_unfiltered.
 
@@ -346,7 +370,7 @@ Theorem C13_get_definitions : forall s, QWF s -> forall o fuel root rec inside p
   query_definitions s o fuel [root] rec inside pats = WOk res ->
   forall e, In e res <->
     (reachA_definitions s inside root e \/ reachB_definitions s rec inside root e) /\
-    (sel_match (q_case o) (q_re o) (key_of s (q_key o)) pats e = true /\ q_cb o e = true).
+    (sel_match (q_case o) (q_re o) (key_of s (q_key o)) (fold_of s (q_key o)) pats e = true /\ q_cb o e = true).
 Proof. exact query_definitions_spec. Qed.
 Print Assumptions C13_get_definitions.
 
@@ -359,7 +383,7 @@ Theorem C13_get_definitions_filters_unfiltered : forall s o fuel roots rec insid
   LookOK s (q_reg o) (q_key o) RDefs -> ~ In [] pats ->
   query_definitions s o fuel roots rec inside pats = WOk res ->
   query_definitions s (unfiltered o) fuel roots rec inside star_pat = WOk ures ->
-  forall e, In e res <-> In e ures /\ sel_match (q_case o) (q_re o) (key_of s (q_key o)) pats e = true.
+  forall e, In e res <-> In e ures /\ sel_match (q_case o) (q_re o) (key_of s (q_key o)) (fold_of s (q_key o)) pats e = true.
 Proof. exact definitions_filters_unfiltered. Qed.
 Print Assumptions C13_get_definitions_filters_unfiltered.
 
@@ -396,7 +420,7 @@ Theorem C13_get_libraries : forall s, QWF s -> forall o fuel root rec inside pat
   query_libraries s o fuel [root] rec inside pats = WOk res ->
   forall e, In e res <->
     (reachA_libraries s root e \/ reachB_libraries s rec inside root e) /\
-    (sel_match (q_case o) (q_re o) (key_of s (q_key o)) pats e = true /\ q_cb o e = true).
+    (sel_match (q_case o) (q_re o) (key_of s (q_key o)) (fold_of s (q_key o)) pats e = true /\ q_cb o e = true).
 Proof. exact query_libraries_spec. Qed.
 Print Assumptions C13_get_libraries.
 
@@ -408,7 +432,7 @@ Theorem C13_get_libraries_instance_outside : forall s, QWF s -> forall o fuel ro
   query_libraries s o fuel [root] rec false pats = WOk res ->
   forall e, In e res <->
     (exists p d', par s RChildren x = Some p /\ star (used_by s) rec p d' /\ par s RDefs d' = Some e) /\
-    (sel_match (q_case o) (q_re o) (key_of s (q_key o)) pats e = true /\ q_cb o e = true).
+    (sel_match (q_case o) (q_re o) (key_of s (q_key o)) (fold_of s (q_key o)) pats e = true /\ q_cb o e = true).
 Proof. exact query_libraries_instance_outside. Qed.
 Print Assumptions C13_get_libraries_instance_outside.
 
@@ -435,7 +459,7 @@ Theorem C13_get_libraries_filters_unfiltered : forall s o fuel roots rec inside 
   LookOK s (q_reg o) (q_key o) RLibs -> ~ In [] pats ->
   query_libraries s o fuel roots rec inside pats = WOk res ->
   query_libraries s (unfiltered o) fuel roots rec inside star_pat = WOk ures ->
-  forall e, In e res <-> In e ures /\ sel_match (q_case o) (q_re o) (key_of s (q_key o)) pats e = true.
+  forall e, In e res <-> In e ures /\ sel_match (q_case o) (q_re o) (key_of s (q_key o)) (fold_of s (q_key o)) pats e = true.
 Proof. exact libraries_filters_unfiltered. Qed.
 Print Assumptions C13_get_libraries_filters_unfiltered.
 
@@ -472,7 +496,7 @@ Theorem C13_get_ports : forall s, QWF s -> forall o fuel root pats res,
   NoDup res /\
   forall e, In e res <->
     (reachA_ports s root e \/ reachB_ports s root e) /\
-    (sel_match (q_case o) (q_re o) (key_of s (q_key o)) pats e = true /\ q_cb o e = true).
+    (sel_match (q_case o) (q_re o) (key_of s (q_key o)) (fold_of s (q_key o)) pats e = true /\ q_cb o e = true).
 Proof. exact query_ports_spec. Qed.
 Print Assumptions C13_get_ports.
 
@@ -485,7 +509,7 @@ Theorem C13_get_ports_filters_unfiltered : forall s o fuel roots pats res ures,
   LookOK s (q_reg o) (q_key o) RPorts -> ~ In [] pats ->
   query_ports s o fuel roots pats = WOk res ->
   query_ports s (unfiltered o) fuel roots star_pat = WOk ures ->
-  forall e, In e res <-> In e ures /\ sel_match (q_case o) (q_re o) (key_of s (q_key o)) pats e = true.
+  forall e, In e res <-> In e ures /\ sel_match (q_case o) (q_re o) (key_of s (q_key o)) (fold_of s (q_key o)) pats e = true.
 Proof. exact ports_filters_unfiltered. Qed.
 Print Assumptions C13_get_ports_filters_unfiltered.
 
@@ -510,7 +534,7 @@ Theorem C13_get_netlists : forall s, QWF s -> forall o fuel root pats res, ~ In 
   query_netlists s o fuel [root] pats = WOk res ->
   NoDup res /\
   forall n, In n res <-> reach_netlists s root n /\
-    (sel_match (q_case o) (q_re o) (key_of s (q_key o)) pats n = true /\ q_cb o n = true).
+    (sel_match (q_case o) (q_re o) (key_of s (q_key o)) (fold_of s (q_key o)) pats n = true /\ q_cb o n = true).
 Proof. exact query_netlists_spec. Qed.
 Print Assumptions C13_get_netlists.
 
@@ -541,7 +565,7 @@ Theorem C13_get_cables : forall s, QWF s -> forall o fuel root rec x pats res,
   NoDup res /\
   forall e, In e res <->
     (reachA_cables s x root e \/ reachB_cables s rec x root e) /\
-    (sel_match (q_case o) (q_re o) (key_of s (q_key o)) pats e = true /\ q_cb o e = true).
+    (sel_match (q_case o) (q_re o) (key_of s (q_key o)) (fold_of s (q_key o)) pats e = true /\ q_cb o e = true).
 Proof. exact query_cables_spec. Qed.
 Print Assumptions C13_get_cables.
 
@@ -564,7 +588,7 @@ Theorem C13_get_cables_all : forall s, QWF s -> forall o fuel root rec pats res,
   NoDup res /\
   forall e, In e res <->
     ((exists d, lead_defs s root d /\ par s RCables e = Some d) \/ cables_all s root e) /\
-    (sel_match (q_case o) (q_re o) (key_of s (q_key o)) pats e = true /\ q_cb o e = true).
+    (sel_match (q_case o) (q_re o) (key_of s (q_key o)) (fold_of s (q_key o)) pats e = true /\ q_cb o e = true).
 Proof. exact query_cables_all_spec. Qed.
 Print Assumptions C13_get_cables_all.
 
@@ -583,7 +607,7 @@ Theorem C13_get_cables_all_roots : forall s, QWF s -> forall o fuel roots rec pa
   NoDup res /\
   forall e, In e res <->
     (exists it, In it roots /\ ((exists d, lead_defs s it d /\ par s RCables e = Some d) \/ cables_all s it e)) /\
-    (sel_match (q_case o) (q_re o) (key_of s (q_key o)) pats e = true /\ q_cb o e = true).
+    (sel_match (q_case o) (q_re o) (key_of s (q_key o)) (fold_of s (q_key o)) pats e = true /\ q_cb o e = true).
 Proof. exact query_cables_all_roots_spec. Qed.
 Print Assumptions C13_get_cables_all_roots.
 
@@ -615,7 +639,7 @@ Theorem C13_get_cables_filters_unfiltered : forall s o fuel roots rec x pats res
   LookOK s (q_reg o) (q_key o) RCables -> ~ In [] pats ->
   query_cables s o fuel roots rec x pats = WOk res ->
   query_cables s (unfiltered o) fuel roots rec x star_pat = WOk ures ->
-  forall e, In e res <-> In e ures /\ sel_match (q_case o) (q_re o) (key_of s (q_key o)) pats e = true.
+  forall e, In e res <-> In e ures /\ sel_match (q_case o) (q_re o) (key_of s (q_key o)) (fold_of s (q_key o)) pats e = true.
 Proof. exact cables_filters_unfiltered. Qed.
 Print Assumptions C13_get_cables_filters_unfiltered.
 
